@@ -1369,7 +1369,8 @@ class CSemantics:
                     location,
                 )
         elif isinstance(typ, types.EnumType):
-            return 80
+            # Enumerated types are compatible with int:
+            return self.basic_ranks[types.BasicType.INT]
         elif typ.is_pointer:
             return 83
         elif isinstance(typ, types.ArrayType):
